@@ -12,7 +12,7 @@ EXPLANATION = (
     'content is created / renamed only by copy_atomic and Archive::save; (R3) Archive::save has one call site, reachable only through the '
     'exhaustion edge of the apply loop and never from an apply Err edge, and not under --dry-run; (R4) save = create(tmp) -> write_all Ok -> '
     'sync_all Ok -> [.bak rename] -> rename(tmp, path) -> parent-dir sync; (R5) nothing else uses the archive path. '
-    'R2 also: a hard link / symlink in the bisync graph places complete content but does not replace - AlreadyExists must fall back to a replacing publisher, else a re-run after a kill stops there forever (the re-run clause, decided for this one construct). R1 also: when deliveries are staged into a container and renamed in a loop over it, they become visible in the order the container iterates in - a map or set keyed by path is reported (the winner would replace the loser\'s file before the loser\'s copy has a real name), a list is not decided. R3 judges every save site of run_bisync on its own; one on a path that skips the apply loop is not decided. Not decided: the recovery clause (re-running converges) - behavioural.')
+    'R2 also: a hard link / symlink in the bisync graph places complete content but does not replace - AlreadyExists must fall back to a replacing publisher, else a re-run after a kill stops there forever (the re-run clause, decided for this one construct). R1 also: when deliveries are staged into a container and renamed in a loop over it, they become visible in the order the container iterates in - a map or set keyed by path is reported (the winner would replace the loser\'s file before the loser\'s copy has a real name), a list is not decided. R1 also: re-opening the staging file for writing (continuing a leftover of an interrupted run) is reported when what decides it is not given the source, and not decided otherwise. R3 judges every save site of run_bisync on its own; one on a path that skips the apply loop is not decided. Not decided: the recovery clause (re-running converges) - behavioural.')
 ASSUMPTIONS = ['rename(2) is atomic; fsync(2) flushes the file', 'std::fs::copy creates/truncates its destination only']
 
 SYNC = ('std::fs::File::sync_all', 'std::fs::File::sync_data')
